@@ -306,6 +306,7 @@ static int 	format_from_extension (SF_PRIVATE *psf) ;
 static int	guess_file_type (SF_PRIVATE *psf) ;
 static int	validate_sfinfo (SF_INFO *sfinfo) ;
 static int	validate_psf (SF_PRIVATE *psf) ;
+static sf_count_t	whole_frames (SF_PRIVATE *psf, sf_count_t count, int width) ;
 static void	save_header_info (SF_PRIVATE *psf) ;
 static int	psf_close (SF_PRIVATE *psf) ;
 
@@ -1811,6 +1812,7 @@ sf_read_raw		(SNDFILE *sndfile, void *ptr, sf_count_t bytes)
 		} ;
 
 	psf->last_op = SFM_READ ;
+	count = whole_frames (psf, count, blockwidth) ;
 
 	return count ;
 } /* sf_read_raw */
@@ -1869,6 +1871,7 @@ sf_read_short	(SNDFILE *sndfile, short *ptr, sf_count_t len)
 		} ;
 
 	psf->last_op = SFM_READ ;
+	count = whole_frames (psf, count, psf->sf.channels) ;
 
 	return count ;
 } /* sf_read_short */
@@ -1919,6 +1922,7 @@ sf_readf_short		(SNDFILE *sndfile, short *ptr, sf_count_t frames)
 		} ;
 
 	psf->last_op = SFM_READ ;
+	count = whole_frames (psf, count, psf->sf.channels) ;
 
 	return count / psf->sf.channels ;
 } /* sf_readf_short */
@@ -1977,6 +1981,7 @@ sf_read_int		(SNDFILE *sndfile, int *ptr, sf_count_t len)
 		} ;
 
 	psf->last_op = SFM_READ ;
+	count = whole_frames (psf, count, psf->sf.channels) ;
 
 	return count ;
 } /* sf_read_int */
@@ -2027,6 +2032,7 @@ sf_readf_int	(SNDFILE *sndfile, int *ptr, sf_count_t frames)
 		} ;
 
 	psf->last_op = SFM_READ ;
+	count = whole_frames (psf, count, psf->sf.channels) ;
 
 	return count / psf->sf.channels ;
 } /* sf_readf_int */
@@ -2085,6 +2091,7 @@ sf_read_float	(SNDFILE *sndfile, float *ptr, sf_count_t len)
 		} ;
 
 	psf->last_op = SFM_READ ;
+	count = whole_frames (psf, count, psf->sf.channels) ;
 
 	return count ;
 } /* sf_read_float */
@@ -2135,6 +2142,7 @@ sf_readf_float	(SNDFILE *sndfile, float *ptr, sf_count_t frames)
 		} ;
 
 	psf->last_op = SFM_READ ;
+	count = whole_frames (psf, count, psf->sf.channels) ;
 
 	return count / psf->sf.channels ;
 } /* sf_readf_float */
@@ -2193,6 +2201,7 @@ sf_read_double	(SNDFILE *sndfile, double *ptr, sf_count_t len)
 		} ;
 
 	psf->last_op = SFM_READ ;
+	count = whole_frames (psf, count, psf->sf.channels) ;
 
 	return count ;
 } /* sf_read_double */
@@ -2243,6 +2252,7 @@ sf_readf_double	(SNDFILE *sndfile, double *ptr, sf_count_t frames)
 		} ;
 
 	psf->last_op = SFM_READ ;
+	count = whole_frames (psf, count, psf->sf.channels) ;
 
 	return count / psf->sf.channels ;
 } /* sf_readf_double */
@@ -2294,6 +2304,7 @@ sf_write_raw	(SNDFILE *sndfile, const void *ptr, sf_count_t len)
 	psf->write_current += count / blockwidth ;
 
 	psf->last_op = SFM_WRITE ;
+	count = whole_frames (psf, count, blockwidth) ;
 
 	if (psf->write_current > psf->sf.frames)
 	{	psf->sf.frames = psf->write_current ;
@@ -2354,6 +2365,7 @@ sf_write_short	(SNDFILE *sndfile, const short *ptr, sf_count_t len)
 	psf->write_current += count / psf->sf.channels ;
 
 	psf->last_op = SFM_WRITE ;
+	count = whole_frames (psf, count, psf->sf.channels) ;
 
 	if (psf->write_current > psf->sf.frames)
 	{	psf->sf.frames = psf->write_current ;
@@ -2406,6 +2418,7 @@ sf_writef_short	(SNDFILE *sndfile, const short *ptr, sf_count_t frames)
 	psf->write_current += count / psf->sf.channels ;
 
 	psf->last_op = SFM_WRITE ;
+	count = whole_frames (psf, count, psf->sf.channels) ;
 
 	if (psf->write_current > psf->sf.frames)
 	{	psf->sf.frames = psf->write_current ;
@@ -2466,6 +2479,7 @@ sf_write_int	(SNDFILE *sndfile, const int *ptr, sf_count_t len)
 	psf->write_current += count / psf->sf.channels ;
 
 	psf->last_op = SFM_WRITE ;
+	count = whole_frames (psf, count, psf->sf.channels) ;
 
 	if (psf->write_current > psf->sf.frames)
 	{	psf->sf.frames = psf->write_current ;
@@ -2518,6 +2532,7 @@ sf_writef_int	(SNDFILE *sndfile, const int *ptr, sf_count_t frames)
 	psf->write_current += count / psf->sf.channels ;
 
 	psf->last_op = SFM_WRITE ;
+	count = whole_frames (psf, count, psf->sf.channels) ;
 
 	if (psf->write_current > psf->sf.frames)
 	{	psf->sf.frames = psf->write_current ;
@@ -2578,6 +2593,7 @@ sf_write_float	(SNDFILE *sndfile, const float *ptr, sf_count_t len)
 	psf->write_current += count / psf->sf.channels ;
 
 	psf->last_op = SFM_WRITE ;
+	count = whole_frames (psf, count, psf->sf.channels) ;
 
 	if (psf->write_current > psf->sf.frames)
 	{	psf->sf.frames = psf->write_current ;
@@ -2630,6 +2646,7 @@ sf_writef_float	(SNDFILE *sndfile, const float *ptr, sf_count_t frames)
 	psf->write_current += count / psf->sf.channels ;
 
 	psf->last_op = SFM_WRITE ;
+	count = whole_frames (psf, count, psf->sf.channels) ;
 
 	if (psf->write_current > psf->sf.frames)
 	{	psf->sf.frames = psf->write_current ;
@@ -2690,6 +2707,7 @@ sf_write_double	(SNDFILE *sndfile, const double *ptr, sf_count_t len)
 	psf->write_current += count / psf->sf.channels ;
 
 	psf->last_op = SFM_WRITE ;
+	count = whole_frames (psf, count, psf->sf.channels) ;
 
 	if (psf->write_current > psf->sf.frames)
 	{	psf->sf.frames = psf->write_current ;
@@ -2742,6 +2760,7 @@ sf_writef_double	(SNDFILE *sndfile, const double *ptr, sf_count_t frames)
 	psf->write_current += count / psf->sf.channels ;
 
 	psf->last_op = SFM_WRITE ;
+	count = whole_frames (psf, count, psf->sf.channels) ;
 
 	if (psf->write_current > psf->sf.frames)
 	{	psf->sf.frames = psf->write_current ;
@@ -3023,6 +3042,20 @@ validate_sfinfo (SF_INFO *sfinfo)
 		return 0 ;
 	return 1 ;
 } /* validate_sfinfo */
+
+/* A short transfer of the I/O layer can end inside a frame. Only whole frames are
+** reported to the caller (the position has been advanced by whole frames) and,
+** as the file offset no longer matches that position, the next call has to seek.
+*/
+static sf_count_t
+whole_frames (SF_PRIVATE *psf, sf_count_t count, int width)
+{
+	if (width <= 1 || count % width == 0)
+		return count ;
+
+	psf->last_op = 0 ;
+	return count - count % width ;
+} /* whole_frames */
 
 static int
 validate_psf (SF_PRIVATE *psf)
